@@ -48,6 +48,7 @@ const (
 	oStalePods                  // a pod may exist on the API server without being in the informer cache yet
 	oDeleteGone                 // a pod delete may find the pod already gone (stale cache): NotFound
 	oNoHistory                  // revisionHistoryLimit 0: every revision that is not live is trimmed at once
+	oViaSync                    // the reconcile is the per-key sync (listing, claiming, then UpdateStatefulSet) instead of UpdateStatefulSet on the snapshot
 )
 
 type vPodInfo struct {
@@ -319,7 +320,14 @@ func VH_Step(a []int) {
 	for _, p := range s.pods {
 		pods = append(pods, p.pod)
 	}
-	err := ssc.control.UpdateStatefulSet(s.set.DeepCopy(), pods)
+	var err error
+	if opts&oViaSync != 0 {
+		// what the reconcile sees is what the real listing and claiming code makes of the caches
+		s.w.refresh()
+		err = ssc.sync(vNS + "/" + vSetName)
+	} else {
+		err = ssc.control.UpdateStatefulSet(s.set.DeepCopy(), pods)
+	}
 	sym.Note("result", err)
 	s.trace()
 	if mon&mC03 != 0 {
